@@ -1,4 +1,5 @@
 mod dynlocale;
+mod exec;
 mod props;
 
 fn main() {
